@@ -273,7 +273,8 @@ cfoldBCall(Foam bcall)
 	  case FOAM_BVal_CharNum:
 		if (!cfoldFoldAll) break;
 		assert(foamTag(argv[0]) == FOAM_SInt);
-		foam = foamNewChar(argv[0]->foamSInt.SIntData);
+		/* A literal's data is a full word: narrow as the run time does. */
+		foam = foamNewChar((UByte) argv[0]->foamSInt.SIntData);
 		break;
 
 	  case FOAM_BVal_SFlo0:
